@@ -348,6 +348,9 @@ def check_defined(model, rep):
 
 
 def check(model, rep):
+    # hidden state Python keeps outside the objects (not modelled by the evaluator): reported before anything else is evaluated
+    from checks.solver_common import package_lints as _package_lints
+    _package_lints(model, rep, 'C15.hidden-state', ('/motor_control/', '/sensors/'))
     from checks.solver_common import absorb_cmp
     absorb_cmp(model, rep, 'C15.dep.cmp', ('AngularPosition', 'Angle', 'Time', 'TimeInterval'))
     rep.explain('C15: the four rule classes and Timer evaluated by gated value numbering (sensor reads inlined to the '
